@@ -47,7 +47,20 @@ pub fn normalise_sig(sig: &str) -> String {
             out.push(p.to_string());
         }
     }
-    let joined = out.join(":");
+    let mut joined = out.join(":");
+    if (joined.starts_with("c01:undo:") || joined.starts_with("c02:undo:") || joined.starts_with("c02:redo:")) && joined.ends_with(":cell-value") {
+        // ONLY computed values differ (all contents equal): an evaluation effect (history-dependent values on
+        // cycles / next to spills, F01m), not a property of the op kind that happened to be undone
+        let head: Vec<&str> = joined.split(':').take(2).collect();
+        joined = format!("{}:any:cell-value-only", head.join(":"));
+    }
+    if joined.starts_with("c03:diverged:") && joined.contains("-failed") {
+        // the diverging command is a call that returned Err after changing the primary: the defect is that
+        // op's C04 finding (reported there with its op kind); here one signature per class of observable
+        let class = joined.rsplit(':').next().unwrap_or("");
+        let lang = if joined.contains("-lang") { "-lang" } else { "" };
+        joined = format!("c03:diverged:any-failed{lang}:{class}");
+    }
     if joined.starts_with("c03:") {
         // replica divergence: which observable of the cell differs first depends on pool indices;
         // one class for the whole cell
